@@ -48,6 +48,28 @@ class Obligation:
     where: str = ""         # file:line (informational)
 
 
+OPAQUE_FALLBACKS: set = set()          # filled by the evaluator: private package helpers whose body it could not read where they were called
+UNKNOWN_CALLABLES: set = set()        # filled by the evaluator: locals called as functions whose value is not a known function
+
+
+def uninterpreted(text: str) -> str:
+    """What in the text of an extracted value is a placeholder of the evaluator (empty when nothing is)."""
+    if not text:
+        return ""
+    import re
+    if "comp()" in text:
+        return "an unsummarised comprehension (comp())"
+    for m in re.finditer(r"slot:[A-Za-z_][A-Za-z_0-9]*", text):
+        if m.group(0) in UNKNOWN_CALLABLES:
+            return f"a call through a local function value of unknown origin ({m.group(0)})"
+    for m in re.finditer(r"call:[A-Za-z_][A-Za-z_0-9.]*", text):
+        if m.group(0) in OPAQUE_FALLBACKS:
+            return f"the result of a private helper whose body could not be read at this call ({m.group(0)})"
+    if "dep:builtins.next" in text or "py.next" in text:
+        return "a generator consumed with next()"
+    return ""
+
+
 class Result:
     """Collects what one check run analysed and concluded."""
 
@@ -82,7 +104,17 @@ class Result:
 
     def violation(self, rule: str, mod, fname: str, node, message: str, extracted: str = "", expected: str = "",
                   construct: Optional[str] = None):
-        """Convenience: build a Finding from a module + AST node."""
+        """Convenience: build a Finding from a module + AST node.
+
+        A violation has to rest on a value the analysis actually read.  When the extracted value still contains parts the evaluator
+        did not interpret - an unsummarised comprehension `comp()`, an opaque object `obj()`, a callable that is not one of the
+        declared function-pointer slots (a functools.partial, a function passed in as an argument, the result of a dispatch
+        table), a value left behind by a loop that could not be summarised - the comparison that produced it compared against a
+        placeholder: that is "not read" (exit 2), not a contradiction."""
+        why = uninterpreted(extracted)
+        if why:
+            self.error(f"INCONCLUSIVE {rule} {mod.short}.{fname}: the value the rule read contains {why}; the comparison is not decided ({message[:140]})")
+            return None
         f = Finding(self.prop, rule, mod.short, fname,
                     norm_text(construct if construct is not None else node), message,
                     mod.relpath, getattr(node, "lineno", 0) if node is not None else 0, extracted, expected)
